@@ -310,6 +310,10 @@ def run(tier: str) -> int:
         rep.fail({"clause": clause, "length": SINGLE[k]}, {"kind": "single", "L": SINGLE[k], "observed": sres[k][1] if sres[k][0] == "ok" else list(sres[k])})
     log(f"[C02] A accepted {len(SINGLE) - len(rejected)}/{len(SINGLE)} single-length events (16 places each), {t.s()}s")
 
+    from .. import tlaps
+
+    lemmas = tlaps.prove("CategoryProof", wd)
+    log(f"[C02] TLAPS CategoryProof: {lemmas['discharged']}/{lemmas['obligations']} obligations ({lemmas['note']})")
     rc = rep.finish()
     evidence.write(
         PROP, tier, level="model_checking", wall_s=t.s(), violations=rep.n_violations,
@@ -320,6 +324,7 @@ def run(tier: str) -> int:
             "bounds": {"lengths": LENGTHS, "files": FILES, "max_functions": b["max_funcs"], "end_to_end_up_to_functions": b["e2e_funcs"], "end_to_end_states": n_e2e, "single_lengths": len(SINGLE)},
             "model": {"module": "Thresholds.tla", "invariants": invs, "actions": m.coverage},
             "acceptor": {"module": "ThresholdTrace.tla", "events": len(SINGLE), "rejected": len(rejected)},
+            "proved_lemmas": dict(lemmas, theorems=["CategoryTotal", "CategoryBoundaries", "CategoryMonotone", "FindingIffHardOrWorse"], scope="every natural length (unbounded)"),
             "model_drift": rep.drift, "known_findings_hit": sorted(rep.known),
         },
         assumptions=["generated Python/C functions have exactly the chosen length (asserted through the listing's names: fn_<file>_<n>_<L> must be listed with length L)",
